@@ -557,7 +557,16 @@ func buildReply(sc *Script, st Step, k ActKind, req ref.Envelope) []byte {
 			feats = append(feats, ref.I32(1))
 		}
 		if k == ActOKExtra {
-			feats = append(feats, ref.I32(99))
+			// features this host does not know (a plugin built against a newer API), behind, ahead
+			// of or around the one it does
+			switch sc.Steps[st].N % 3 {
+			case 0:
+				feats = append(feats, ref.I32(99))
+			case 1:
+				feats = append([]ref.Val{ref.I32(99)}, feats...)
+			default:
+				feats = append(append([]ref.Val{ref.I32(7), ref.I32(99)}, feats...), feats...)
+			}
 		}
 		fs := []ref.Field{}
 		if k != ActMissingRequired {
